@@ -107,3 +107,48 @@ func objectHoverOracle(run *Run, n int) {
 		}
 	}
 }
+
+// objectCompletionRanges (C02): attribute-name completion inside object values whose names contain
+// multi-byte characters and multi-code-point grapheme clusters, at every position of a name being
+// typed; every edit range must be a real place of the file (line/column = scanner position of the bytes)
+func objectCompletionRanges(run *Run, n int) {
+	ctx := context.Background()
+	names := []string{"fóo", "abód", "größe", "k👨‍👩‍👧x", "plain", "ó"}
+	for i := 0; i < n; i++ {
+		r := rand.New(rand.NewSource(subSeed(run.Res.Seed, 2121000+i)))
+		oa := schema.ObjectAttributes{}
+		for _, nme := range names {
+			oa[nme] = &schema.AttributeSchema{IsOptional: true, Constraint: schema.LiteralType{Type: cty.String}}
+		}
+		sch := &schema.BodySchema{Attributes: map[string]*schema.AttributeSchema{"obj": {IsOptional: true, Constraint: schema.Object{Attributes: oa}}}}
+		typed := pick(r, names)
+		first := pick(r, []string{"", "plain = \"é ó\"\n  ", "größe = \"x\"\n  "})
+		src := "obj = {\n  " + first + typed + "\n}\n"
+		w := newWorld()
+		pd := w.AddPath("root", sch, map[string]string{"main.tf": src}, nil)
+		d, _ := w.Dec.Path(pd.Path)
+		tbl := lcTable([]byte(src))
+		start := strings.LastIndex(src, typed)
+		loc := map[string]interface{}{"seed": run.Res.Seed, "object_completion": i, "src": src}
+		for off := start; off <= start+len(typed); off++ {
+			pos, ok := tbl[off]
+			if !ok {
+				continue
+			}
+			res := safeCall("CompletionAtPos", func() (interface{}, error) { return d.CompletionAtPos(ctx, "main.tf", pos) })
+			run.Res.Evaluations++
+			if res.Panic != "" || res.Err != nil {
+				continue
+			}
+			q := Query{Name: "CompletionAtPos", Pos: &pos, File: "main.tf"}
+			for _, rr := range rangesOf(res.Val, pd.Path.Path) {
+				run.Res.Hypotheses["object_completion_ranges_checked"]++
+				if why := badRange(w, rr); why != "" {
+					run.Violate(Violation{Key: "C02/" + strings.SplitN(why, ":", 2)[0] + "/CompletionAtPos/object-attribute-" + strings.ReplaceAll(rr.What, " ", "-"),
+						Rule: "every emitted range is a real, self-consistent place in the right file", Func: "CompletionAtPos",
+						Detail: fmt.Sprintf("%s %s (%s)", rr.What, rngString(rr), why), Replay: locWith(loc, q)})
+				}
+			}
+		}
+	}
+}
